@@ -79,21 +79,27 @@ def marshalDelete (proto spiSize : UInt8) (num : UInt16) (spis : List UInt32) : 
     let body ← if num.toNat > 0 then marshalDeleteSPIs spiSize.toNat spis else .ok []
     .ok ([proto, spiSize] ++ put16 num ++ body)
 
-/-- the SPI loop `for i := 0; i+4 <= len(b); i += 4` -/
-def deleteSPIs (b : Bytes) : List UInt32 :=
-  match b with
-  | b0 :: b1 :: b2 :: b3 :: rest => be32 b0 b1 b2 b3 :: deleteSPIs rest
-  | _ => []
+/-- the SPI loop `for i := 0; i < 4*numberOfSPI; i += 4 { Uint32(b[i:i+4]) }` (a fault if `b` is too short) -/
+def deleteSPIs : Nat → Bytes → Res (List UInt32)
+  | 0, _ => .ok []
+  | n + 1, b0 :: b1 :: b2 :: b3 :: rest =>
+    match deleteSPIs n rest with
+    | .ok l => .ok (be32 b0 b1 b2 b3 :: l)
+    | .err => .err
+    | .fault => .fault
+  | _ + 1, _ => .fault
 
 def unmarshalDelete (b : Bytes) : Res Payload :=
   if b.length = 0 then .ok (.delete 0 0 0 []) else
   if b.length ≤ 3 then .err else do
     let spiSize ← goIndex b 1
     let num ← goU16 b 2
-    if b.length < 4 + spiSize.toNat * num.toNat then .err else do
+    if b.length < 4 + spiSize.toNat * num.toNat then .err else
+    if num.toNat > 0 && spiSize != 4 then .err else do
       let proto ← goIndex b 0
       let rest ← goFrom b 4
-      .ok (.delete proto spiSize num (deleteSPIs rest))
+      let spis ← deleteSPIs num.toNat rest
+      .ok (.delete proto spiSize num spis)
 
 /-! ### Configuration -/
 
